@@ -1,8 +1,11 @@
 package main
 
 import (
+	"encoding/json"
+	"fmt"
 	"sort"
 	"strings"
+	"time"
 
 	"github.com/0xrawsec/sod"
 	"github.com/0xrawsec/sod/zzverif/vfs"
@@ -108,4 +111,73 @@ func key(n string, lower bool) string {
 		return n + "|lower"
 	}
 	return n + "|asis"
+}
+
+// ---- field descriptors of awkward shapes, compared with the pinned release's -------------
+
+type dLeaf struct {
+	Leaf string `sod:"index,lower"`
+	Num  uint16 `sod:"index"`
+}
+type dL5 struct {
+	L6  dLeaf
+	PL6 *dLeaf
+	S   string `sod:"upper"`
+}
+type dL4 struct {
+	L5 dL5
+	P5 *dL5
+}
+type dL3 struct {
+	L4   dL4
+	Ptr  *int
+	When time.Time `sod:"index"`
+}
+type dL2 struct {
+	L3 *dL3
+	V  int `sod:"unique"`
+}
+type dEmb struct {
+	EmbA int    `sod:"index"`
+	EmbS string `sod:"lower"`
+}
+type dNamed string
+
+// DescDeep gathers the shapes: value and pointer nesting down to seven path components, a
+// pointer to a scalar and a pointer to a struct below the first level, time, containers,
+// an embedded struct, named types, an unexported field.
+type DescDeep struct {
+	sod.Item
+	L2     dL2
+	Top    *dL2
+	T      time.Time
+	Arr    [2]int
+	Sl     []dLeaf
+	M      map[string]dLeaf
+	PS     *string `sod:"index"`
+	Name   dNamed  `sod:"index,unique,upper"`
+	F32    float32 `sod:"index"`
+	hidden int
+	dEmb
+}
+
+// descriptorTable returns "<type>" -> path -> "type|constraints" as produced by the code under test.
+func descriptorTable() map[string]map[string]string {
+	out := map[string]map[string]string{}
+	for name, o := range map[string]sod.Object{"DescDeep": &DescDeep{}, "Rec": &Rec{}, "Wide": &Wide{}, "Hk": &Hk{}} {
+		func() {
+			defer func() {
+				if r := recover(); r != nil {
+					out[name] = map[string]string{"PANIC": fmt.Sprint(r)}
+				}
+			}()
+			m := map[string]string{}
+			for p, fd := range sod.FieldDescriptors(o) {
+				c, _ := json.Marshal(fd.Constraints)
+				m[p] = fd.Type + "|" + string(c)
+			}
+			out[name] = m
+		}()
+	}
+	return out
 }
